@@ -12,7 +12,7 @@
  * @backend cadical
  * @mem check
  * @cbmc --unwind 5 --object-bits 11
- * @timeout 600
+ * @timeout 1500
  * @memgb 8
  */
 #include "v.h"
